@@ -568,6 +568,21 @@ ACTION_OP = {
 }
 
 
+# the state of the named objects under which each action is carried out (anything else is answered with the
+# action's own failure status, without touching the filestore)
+PRECONDITION = {
+    "CreateFile": (("exists", "first", False),),
+    "DeleteFile": (("is_file", "first", True),),
+    "RenameFile": (("is_file", "first", True), ("is_file", "second", False)),
+    "AppendFile": (("is_file", "first", True), ("is_file", "second", True)),
+    "ReplaceFile": (("is_file", "first", True), ("is_file", "second", True)),
+    "CreateDirectory": (("is_dir", "first", False),),
+    "RemoveDirectory": (("is_dir", "first", True),),
+    "DenyFile": (("is_file", "first", True),),
+    "DenyDirectory": (("is_dir", "first", True),),
+}
+
+
 def _action_switches(ctx, f, tyname):
     """(block, term, {variant: target}) of switches on the discriminant of a value whose type is `tyname`."""
     eb = ExprBuilder(ctx.prog, f)
@@ -598,6 +613,7 @@ def c13_q1(ctx):
     tables = [(pr[0], "FileStoreAction")]
     for nm, ty in (("FileStoreStatus::get_not_performed", "FileStoreAction"), ("FileStoreStatus::get_status", "FileStoreAction"), ("FileStoreStatus::as_u8", "FileStoreStatus")):
         tables.append((ctx.one("C13-Q1", nm), ty))
+    probe_flow = [None]
     for f, ty in tables:
         sws = list(_action_switches(ctx, f, ty))
         if len(sws) != 1:
@@ -673,6 +689,13 @@ def c13_q1(ctx):
                 for ob in opblocks:
                     if not any(pb in dom.get(ob, ()) and pb != ob for pb in probes):
                         problems.append("the operation of arm %s runs without first probing the request's first name (exists / is_file / is_dir): a request whose precondition does not hold is performed anyway" % var)
+                    # ... and under exactly the precondition of that action
+                    if probe_flow[0] is None:
+                        probe_flow[0] = Flow(ctx.prog, ctx.mods, f, lambda k: k[0] == "call" and k[1].split("::")[-1] in ("exists", "is_file", "is_dir", "try_exists"))
+                    ws = [dict(w) for w in probe_flow[0].at_term(ob)]
+                    for probe, which, want_v in PRECONDITION.get(var, ()):
+                        if not (ws and all(call_key(w, probe, want_v, arg_contains="request.%s_filename" % which) for w in ws)):
+                            problems.append("%s runs without the precondition %s(%s name) == %s on the path: the action is performed on (or refused for) an object of the wrong kind and the outcome reported is not that of the request" % (ACTION_OP[var][0], probe, which, str(want_v).lower()))
                 want, nargs = ACTION_OP.get(var, ("?", 0))
                 if [o for o, _ in ops] != [want]:
                     problems.append("arm %s runs %s (expected exactly %s)" % (var, [o for o, _ in ops], want))
